@@ -76,7 +76,8 @@ def _run_one(args):
                         # call-order plane declared by the module (HISTORY): executed in fresh interpreters
                         from mc.props import _hist_common as H
                         hd = _MOD.HISTORY
-                        res = H.run_history(_MOD.ID, hd["prelude"], hd["labels"], cfg["seq"], hd["tol"])
+                        res = H.run_history(_MOD.ID, hd["prelude"], hd["labels"], cfg["seq"], hd["tol"],
+                                            sym=bool(cfg.get("sym")))
                     else:
                         res = _MOD.run_case(cfg)
         finally:
